@@ -233,7 +233,8 @@ def Row.connectAddr (r : Row) (ca : Nat) : Option Nat :=
   if validIp ca then some ca else if validIp r.rpc then some r.rpc else
   if validIp r.bcast then some r.bcast else if validIp r.peer then some r.peer else none
 
-/-- `hostInfoFromMap`: `none` = the panic of `ConnectAddress()` on a row without any usable address -/
+/-- `hostInfoFromMap`: `none` = the error it returns for a row without any usable address (repair of KF-C05-25;
+`ConnectAddress()` panicked there before) -/
 def Row.host (r : Row) (obj ca : Nat) : Option RHost :=
   match r.connectAddr ca with
   | none => none
@@ -253,7 +254,7 @@ def Row.validPeerOld (r : Row) : Bool := r.rpc != 0 && r.dc != 0 && r.rack != 0 
 def Row.validPeerSpec (r : Row) : Bool := r.rpc != 0 && r.id != 0 && r.dc != 0 && r.rack != 0 && r.tokens != 0
 
 /-- `GetHosts`: local host, then the valid peers in row order; objects numbered `obj0, obj0+1, …` in row order.
-`none` = panic in `hostInfoFromMap`. -/
+`none` = an error from `hostInfoFromMap` (GetHosts returns it, the refresh fails). -/
 def peersHosts : List Row → Nat → Option (List RHost)
   | [], _ => some []
   | r :: t, obj =>
